@@ -20,23 +20,23 @@ type Viol struct {
 
 // Result of one execution.
 type Result struct {
-	ID         int               `json:"id"`
-	Done       bool              `json:"done"`
-	Stalled    bool              `json:"stalled"`
-	StepCap    bool              `json:"step_cap"`
-	Steps      int               `json:"steps"`
-	Viols      []Viol            `json:"viols"`
-	Commits    map[string]string `json:"commits"`    // "n<i>/h<h>" -> canonical block name
-	MaxRound   int64             `json:"max_round"`
-	RulesFired []int             `json:"rules_fired"`
-	Outcome    string            `json:"outcome"`    // canonical digest of the observable outcome
-	Writes     map[string]int    `json:"writes,omitempty"`
-	Crashes    int               `json:"crashes"`
-	Trace      []string          `json:"trace,omitempty"`
-	Digests    map[string]string `json:"digests,omitempty"`
-	Extra      map[string]string `json:"extra,omitempty"`
-	Panic      string            `json:"panic,omitempty"`
-	StateHashes []uint64         `json:"state_hashes,omitempty"`
+	ID          int               `json:"id"`
+	Done        bool              `json:"done"`
+	Stalled     bool              `json:"stalled"`
+	StepCap     bool              `json:"step_cap"`
+	Steps       int               `json:"steps"`
+	Viols       []Viol            `json:"viols"`
+	Commits     map[string]string `json:"commits"` // "n<i>/h<h>" -> canonical block name
+	MaxRound    int64             `json:"max_round"`
+	RulesFired  []int             `json:"rules_fired"`
+	Outcome     string            `json:"outcome"` // canonical digest of the observable outcome
+	Writes      map[string]int    `json:"writes,omitempty"`
+	Crashes     int               `json:"crashes"`
+	Trace       []string          `json:"trace,omitempty"`
+	Digests     map[string]string `json:"digests,omitempty"`
+	Extra       map[string]string `json:"extra,omitempty"`
+	Panic       string            `json:"panic,omitempty"`
+	StateHashes []uint64          `json:"state_hashes,omitempty"`
 }
 
 type voteKey struct {
@@ -93,6 +93,10 @@ func newMonitors(nt *Net) *Monitors {
 }
 
 func (m *Monitors) report(prop string, sig map[string]string, detail string) {
+	if m.nt.drift && sig["kind"] != "proposer-differs-after-reload" {
+		// consequences of the known reload defect are labelled, so that they can be told apart
+		sig["cause"] = "proposer-differs-after-reload"
+	}
 	key := prop
 	ks := make([]string, 0, len(sig))
 	for k := range sig {
@@ -409,6 +413,12 @@ func (res *Result) fill(nt *Net) {
 	for i, c := range nt.Mon.commits {
 		for h, hx := range c {
 			res.Commits[fmt.Sprintf("n%d/h%d", i, h)] = nt.blocks[hx]
+		}
+	}
+	res.Writes = map[string]int{}
+	for _, n := range nt.Nodes {
+		if n.restarts == 0 {
+			res.Writes[fmt.Sprintf("n%d", n.Idx)] = n.writes
 		}
 	}
 	res.MaxRound = nt.Mon.maxRound
